@@ -14,8 +14,16 @@ SMT-LIB sorting discipline (Spec/HasType.lean); `CreateNode` models `create_node
   `arityOk ∧ payloadOk ∧ sortsOk` at every node); below there is one `decide`d witness per
   component showing that the exclusion cannot be dropped.
 * `typeOf_complete_partial` : the full statement `typeOf_complete_full_statement` is **false**
-  in one place — pySMT only admits rotations by `step ≤ width`, SMT-LIB by any numeral.
+  in one place — pySMT only allows rotations by `step ≤ width`, SMT-LIB by any numeral.
   Proved under `Term.rotInRange`, with a witness.
+  Repaired in /repo since the first run (so K compares against the repaired code): negative
+  rotation steps (125ed50), `Equals`/`Ite` over function symbols (20dcbd6, 2aec32b), bound
+  "variables" that are not plain symbols (f0cd2ee), `BV()` of non-positive width (6d78f18).
+  Only the bound-variable check is visible in `Term`: `typeOfNode` (Core, unchanged) still
+  ignores the variable list, i.e. the model is more permissive than the repaired code on
+  quantifiers over function symbols — terms the wire format cannot carry; `payloadOk`
+  excludes them. Still open (known findings): `Pow` on non-numeric sorts, arity and payload
+  shape through a direct `create_node`.
 * `created_all_wt` : invariant over all histories of `create_node` calls;
   `created_all_hasType_partial`, `createNode_rejects_illsorted_partial` : the two sentences
   of the property for the model of `create_node` (outside F06).
